@@ -336,7 +336,7 @@ fn eval_ctx(c: &Context, inputs: Vec<Value>, seed: [u8; 16]) -> Option<Result<Va
 }
 
 pub fn run(ctx: &mut Ctx) {
-    let total = ctx.q(1600, 24000);
+    let total = ctx.q(4000, 40000);
     let n_mut = ctx.q(150usize, 600);
     ctx.cases("roundtrip", total, |ctx, idx| {
         let (c, label) = match produce(ctx, idx) {
